@@ -370,6 +370,7 @@ def main(argv):
             "through untouched, callable not invoked) with a constructor whose summary is one fresh block, count 1, one owner; nothing is allocated "
             "before the payload's deserializer has returned; path set = {nothing, one fresh sole owner}. Not decided: the payload's own impls."
             " Added later: R-GATE over every method of the serde impls (no write into a payload other handles may share, e.g. in an overridden `deserialize_in_place`); the two handles' impls may delegate to each other."
+            " Round thirteen: R-PROVENANCE over every handle literal (the sole owner's pointer may be written through)."
         ),
         rule_text="instances = the four serde methods (in every serde-enabled configuration)",
         trusted_base=["rustc MIR/def-use", "Result::map calls its function only on Ok and returns Err unchanged", "parametricity"],
